@@ -9,7 +9,7 @@ TIERS = {
 }
 REQUIRED_PROBES = ['lines_restored', 'line_with_stored_and_pruned_cells', 'lost_entry_met',
                    'line_absent_from_file_left_untouched', 'missing_component_reported', 'redecoded_nonempty_page',
-                   'stage2_redecoded_line_with_stored_and_pruned_cells', 'load_over_already_densified_layout', 'consumer_met_xml_without_logits', 'stage2_killed']
+                   'stage2_redecoded_line_with_stored_and_pruned_cells', 'load_over_already_densified_layout', 'artefacts_written_by_library_code', 'consumer_met_xml_without_logits', 'stage2_killed']
 RULE = ('plans = seeded operation sequences over a two-artefact store (PAGE XML + logits, file or bytes transport): '
         'save / corrupt stored artefact (entries lost, foreign entries, legacy format) / restart (objects dropped) / '
         'load into a layout rebuilt from the stored PAGE XML (optionally with extra lines, or another page, or a '
